@@ -37,8 +37,14 @@ Definition pset (k : pkey) (v : N) (l : list (pkey * N)) : list (pkey * N) := (k
 Definition pdel_router (i : node) (l : list (pkey * N)) : list (pkey * N) :=
   filter (fun kv : pkey * N => negb (fst (fst kv) =? i)) l.
 
+Fixpoint sget (k : node) (l : list (node * N)) : N :=
+  match l with [] => 0 | (k', v) :: t => if k =? k' then v else sget k t end.
+Definition sset (k : node) (v : N) (l : list (node * N)) : list (node * N) :=
+  (k, v) :: filter (fun kv : node * N => negb (fst kv =? k)) l.
+
 Record pstate := mkP {
   base : net;                       (* routers: RIB and neighbour table *)
+  myseq : list (node * N);          (* i -> Router.advertSyncSeq, the sequence number i announces *)
   nseq : list (pkey * N);           (* (i, j) -> NeighborState.AdvertSeq of j at i *)
   seen : list (pkey * N);           (* (i, j) -> lastSeen of j at i (clock units) *)
   now : N                           (* the clock *)
@@ -86,47 +92,73 @@ Fixpoint run_flag (S : net) (evs : list event) : net * bool :=
 Definition refresh_seen (i : node) (t : N) (js : list node) (l : list (pkey * N)) : list (pkey * N) :=
   fold_left (fun acc j => pset (i, j) t acc) js l.
 
-Definition pstep (P : pstate) (e : pevent) : pstate * bool :=
-  let (S', d) := run_flag (base P) (ptrace P e) in
+(* the router whose table an event may change (and whose sequence number is bumped if it reports a change:
+   ribUpdate / checkDeadNeighbors -> advertSyncNotifyNew -> advertSyncSeq++) *)
+Definition actor (e : pevent) : option node :=
   match e with
-  | PClock t => (mkP S' (nseq P) (seen P) t, d)
+  | PData i _ _ _ | PSweep i _ => Some i
+  | PBase (Fetch i _) | PBase (Deliver i _ _) | PBase (NbrDead i _) | PBase (LateUpdate i _ _) => Some i
+  | _ => None
+  end.
+
+(* div = how many clock units (ms) make one unit of the initial sequence number: NewRouter sets
+   advertSyncSeq := time.Now().UnixMilli()  (div = 1); the value is translated from the source (GenConsts.seq_clock_div) *)
+Definition pstep_gen (div : N) (P : pstate) (e : pevent) : pstate * bool :=
+  let (S', d) := run_flag (base P) (ptrace P e) in
+  let MS :=
+    match e with
+    | PBase (RouterUp i) => match getr (base P) i with
+                            | Some _ => myseq P
+                            | None => sset i (now P / div) (myseq P)     (* NewRouter *)
+                            end
+    | _ => match actor e with
+           | Some i => if d then sset i (sget i (myseq P) + 1) (myseq P) else myseq P
+           | None => myseq P
+           end
+    end in
+  match e with
+  | PClock t => (mkP S' (MS) (nseq P) (seen P) t, d)
   | PSync i j s =>
       match getr (base P) i with
       | Some ri =>
           if i =? j then (P, false)
           else if memN j (nbrs ri) then
             (* known neighbour: markRecvPing always; the sequence number only if newer *)
-            (mkP S' (if s <=? pget (i, j) (nseq P) then nseq P else pset (i, j) s (nseq P))
+            (mkP S' (MS) (if s <=? pget (i, j) (nseq P) then nseq P else pset (i, j) s (nseq P))
                  (pset (i, j) (now P) (seen P)) (now P), d)
           else
             (* new neighbour: Add, markRecvPing, AdvertSeq := s *)
-            (mkP S' (pset (i, j) s (nseq P)) (pset (i, j) (now P) (seen P)) (now P), d)
+            (mkP S' (MS) (pset (i, j) s (nseq P)) (pset (i, j) (now P) (seen P)) (now P), d)
       | None => (P, false)
       end
-  | PData i j s adv => (mkP S' (nseq P) (seen P) (now P), d)
+  | PData i j s adv => (mkP S' (MS) (nseq P) (seen P) (now P), d)
   | PSweep i dead =>
       let vs := victims P i dead in
-      (mkP S' (fold_left (fun acc j => pdel (i, j) acc) vs (nseq P))
+      (mkP S' (MS) (fold_left (fun acc j => pdel (i, j) acc) vs (nseq P))
               (fold_left (fun acc j => pdel (i, j) acc) vs (seen P)) (now P), d)
   | PBase ev =>
       match ev with
       | NbrUp i j =>
           (* Vf18AddNeighbor / neighbors.Add: AdvertSeq = 0, lastSeen = now (only if it was created) *)
-          if memN j (nbrs_of (base P) i) || (i =? j) || negb (memN j (nbrs_of S' i)) then (mkP S' (nseq P) (seen P) (now P), d)
-          else (mkP S' (pdel (i, j) (nseq P)) (pset (i, j) (now P) (seen P)) (now P), d)
+          if memN j (nbrs_of (base P) i) || (i =? j) || negb (memN j (nbrs_of S' i)) then (mkP S' (MS) (nseq P) (seen P) (now P), d)
+          else (mkP S' (MS) (pdel (i, j) (nseq P)) (pset (i, j) (now P) (seen P)) (now P), d)
       | NbrDead i j =>
           (* the harness-forced removal: the harness owns the clock and marks every other neighbour as just heard *)
           if memN j (nbrs_of (base P) i)
-          then (mkP S' (pdel (i, j) (nseq P))
+          then (mkP S' (MS) (pdel (i, j) (nseq P))
                     (refresh_seen i (now P) (nbrs_of S' i) (pdel (i, j) (seen P))) (now P), d)
-          else (mkP S' (nseq P) (seen P) (now P), d)
-      | RouterDown i => (mkP S' (pdel_router i (nseq P)) (pdel_router i (seen P)) (now P), d)
-      | _ => (mkP S' (nseq P) (seen P) (now P), d)
+          else (mkP S' (MS) (nseq P) (seen P) (now P), d)
+      | RouterDown i => (mkP S' (MS) (pdel_router i (nseq P)) (pdel_router i (seen P)) (now P), d)
+      | _ => (mkP S' (MS) (nseq P) (seen P) (now P), d)
       end
   end.
 
+Definition pstep : pstate -> pevent -> pstate * bool := pstep_gen seq_clock_div.
+
 Definition prun (P : pstate) (evs : list pevent) : pstate :=
   fold_left (fun P e => fst (pstep P e)) evs P.
+Definition prun_gen (div : N) (P : pstate) (evs : list pevent) : pstate :=
+  fold_left (fun P e => fst (pstep_gen div P e)) evs P.
 
 (* all table-level events executed along a protocol run *)
 Fixpoint ptrace_all (P : pstate) (evs : list pevent) : list event :=
@@ -135,4 +167,4 @@ Fixpoint ptrace_all (P : pstate) (evs : list pevent) : list event :=
   | e :: t => ptrace P e ++ ptrace_all (fst (pstep P e)) t
   end.
 
-Definition pinit : pstate := mkP [] [] [] 0.
+Definition pinit : pstate := mkP [] [] [] [] 0.
